@@ -127,6 +127,10 @@ pub fn masked(bytes: &[u8]) -> Vec<u8> {
 
 impl Rig {
     async fn settle(&mut self) -> Settled {
+        /// virtual milliseconds within which the exporter must get back to serving (a well-formed
+        /// request "must be answered within a deadline")
+        const DEADLINE_MS: u64 = 5_000;
+        let mut waited_ms: u64 = 0;
         let mut idle = 0;
         for _ in 0..POLL_BUDGET {
             let a = sim::activity();
@@ -158,6 +162,18 @@ impl Rig {
             if sim::activity() == a {
                 idle += 1;
                 if idle >= 3 {
+                    // Nothing can run. If the exporter is not parked in accept() it may be sleeping
+                    // (a pause between connections is legitimate): let virtual time pass, up to the
+                    // deadline within which a client must be served, before calling it quiescent.
+                    if waited_ms < DEADLINE_MS && !sim::tcp_accept_pending(&self.addr) {
+                        tokio::time::advance(std::time::Duration::from_millis(50)).await;
+                        waited_ms += 50;
+                        idle = 0;
+                        if waited_ms == 50 {
+                            *self.summary.probes.entry("virtual_time_advanced_while_exporter_not_in_accept".into()).or_insert(0) += 1;
+                        }
+                        continue;
+                    }
                     return Settled::Quiescent;
                 }
             } else {
@@ -727,7 +743,9 @@ pub fn worker_main(batch_path: &str) -> i32 {
         }
     };
     let addr = config.observability.metrics_exporter_listen.to_string();
-    let rt = tokio::runtime::Builder::new_current_thread().build().unwrap();
+    // timers of the code under test run on tokio's paused clock; the harness advances it explicitly
+    // (see Rig::settle), so no wall-clock time is ever waited for
+    let rt = tokio::runtime::Builder::new_current_thread().enable_time().start_paused(true).build().unwrap();
     let local = tokio::task::LocalSet::new();
     let code = local.block_on(&rt, async move {
         let base = states::base_state();
